@@ -46,6 +46,20 @@ def membership_rules(repo, res):
     """Q8: the two set-membership primitives behind position and orientation goals.  The shape group is evaluated
     abstractly on a group of three member shapes for every pattern of which members contain the point; the angle
     interval containment is the interval abstract interpretation of C16 (shared)."""
+    shape_group_rule(repo, res, "Q8-MEMBERSHIP")
+    from .c16 import range_rule
+
+    range_rule(repo, res, "Q8-MEMBERSHIP")
+    # a goal position given by a polygon (every lanelet goal is one): the closed vertex ring, boundary included — the
+    # case analysis of C06 on Polygon.contains_point, shared
+    from .c06ev import polygon_rules
+
+    polygon_rules(repo, res, "Q8-MEMBERSHIP")
+
+
+def shape_group_rule(repo, res, RULE):
+    """ShapeGroup.contains_point, evaluated on a group of three member shapes for every pattern of which members
+    contain the point: true iff some member contains it (shared with C06)."""
     from ..strdom import Ev, ListV, Obj, PyFunc, Sym, Undecided, _Raise, show
 
     SH = "commonroad/geometry/shape.py"
@@ -75,15 +89,7 @@ def membership_rules(repo, res):
             bad = "raises %s" % x.what
         except Undecided as x:
             raise AnalysisError("%s [%s]: %s" % (qn, label, x))
-        res.check("Q8-MEMBERSHIP", "%s [%s]: true iff some member contains the point" % (qn, label), bad is None, sg.mod, fn, "%s [%s] %s" % (qn, label, bad), "a goal given by several lanelets / shapes is reached only through some of them (the group is not the union of its members)", qualname=qn)
-    from .c16 import range_rule
-
-    range_rule(repo, res, "Q8-MEMBERSHIP")
-    # a goal position given by a polygon (every lanelet goal is one): the closed vertex ring, boundary included — the
-    # case analysis of C06 on Polygon.contains_point, shared
-    from .c06ev import polygon_rules
-
-    polygon_rules(repo, res, "Q8-MEMBERSHIP")
+        res.check(RULE, "%s [%s]: true iff some member contains the point" % (qn, label), bad is None, sg.mod, fn, "%s [%s] %s" % (qn, label, bad), "a goal given by several lanelets / shapes is reached only through some of them (the group is not the union of its members)", qualname=qn)
 
 
 def run(repo, res, tier):
